@@ -29,13 +29,24 @@ def dotted(node):
     return None
 
 
+# modules whose members the package uses both as ``from m import x`` and as ``import m; m.x``: the callee is the same function
+STDLIB_FROM_MODULES = ('itertools.', 'io.', 'traceback.', 'functools.', 'copy.', 'collections.', 'weakref.', 'importlib.', 'operator.', 'shutil.', 'types.')
+
+
+def strip_stdlib_prefix(name):
+    for p_ in STDLIB_FROM_MODULES:
+        if name.startswith(p_) and '.' not in name[len(p_):]:
+            return name[len(p_):]
+    return name
+
+
 def call_name(call):
     """Dotted name of the callee of an ast.Call; for method chains on call results
     (``ctx.nested_call().use_multiline_strategy``) returns '<call>.use_multiline_strategy'."""
     f = call.func
     d = dotted(f)
     if d is not None:
-        return d
+        return strip_stdlib_prefix(d)
     if isinstance(f, ast.Attribute):
         return '<expr>.' + f.attr
     return '<expr>'
